@@ -11,13 +11,17 @@ def run(ctx: Ctx) -> int:
             jobs.append(Job(H, "h_script", timeout=150, name=f"script[len=3,first={k}]",
                             env={"VERIF_C28_LEN": 3, "VERIF_C28_PREFIX": k, "VERIF_C28_KSET": "0,2,4,5,8"}))
     else:
+        # all scripts of length 3 over the 9 kinds, and scripts of length 4 whose ops 3 and 4 are drawn from the 5 seed / simulator kinds
+        # (the unrestricted length-4 space took 82 min with 17 of 81 shards timing out)
+        for k in range(9):
+            jobs.append(Job(H, "h_script", timeout=600, name=f"script[len=3,first={k}]", env={"VERIF_C28_LEN": 3, "VERIF_C28_PREFIX": k}))
         for k in range(9):
             for k2 in range(9):
-                jobs.append(Job(H, "h_script", timeout=900, name=f"script[len=4,first={k},{k2}]",
-                                env={"VERIF_C28_LEN": 4, "VERIF_C28_PREFIX": f"{k},{k2}"}))
+                jobs.append(Job(H, "h_script", timeout=600, name=f"script[len=4,first={k},{k2}]",
+                                env={"VERIF_C28_LEN": 4, "VERIF_C28_PREFIX": f"{k},{k2}", "VERIF_C28_KSET": "0,2,4,5,8"}))
     ctx.functions_encoded = ["guppylang/emulator/instance.py: _Options, EmulatorInstance._with_option, with_* (12 methods), "
                              "statevector_sim/coinflip_sim/stabilizer_sim, run, _run_instance, _iterate_shots"]
-    ctx.bounds = {"script_length": ctx.pick(3, 4), "operation_kinds": "9 incl. with_simulator of a simulator object shared between configurations (quick: ops 2 and 3 of length-3 scripts drawn from the 5 seed/simulator kinds)", "parent": "any earlier instance (symbolic index)",
+    ctx.bounds = {"script_length": ctx.pick(3, 4), "operation_kinds": "9 incl. with_simulator of a simulator object shared between configurations (quick: ops 2 and 3 of length-3 scripts drawn from the 5 seed/simulator kinds; thorough: all length-3 scripts, and length-4 scripts whose ops 3 and 4 are drawn from those 5 kinds)", "parent": "any earlier instance (symbolic index)",
                   "values": "2 per operation", "base": "seeded or not (symbolic)"}
     ctx.outside_claim = ["selene's own determinism for a fixed effective configuration", "EmulatorBuilder (compilation)",
                          "user code mutating a simulator object after handing it over"]
